@@ -43,6 +43,8 @@ def run(tier):
     rnd = random.Random(common.seed())
     common.build("plain")
     wd = common.workdir("c11")
+    r = common.tlc("DeltaImpl", "MC_DeltaImpl.cfg", workers=8, timeout=600)
+    ck.require_ok("DeltaImpl", r); ck.add_tlc("DeltaImpl/MC_DeltaImpl.cfg (PartialNeverValid, NoRefetch, Converges after up to 2 crashes at any step)", r)
     plans = []
     for bi, (name, A, B, T, limit, frag, opts) in enumerate(bases(rnd, tier)):
         # count the writes of an uninterrupted run
